@@ -72,7 +72,9 @@ Inductive wcase :=
     passes vacuously when the exact run has a near tie (see [wcase_stable]) *)
 | WBuildApprox (rates : list Q) (tol : Q) (total mean : Q) (table : list wrow)
 (** sample_cell on a given table *)
-| WSample (table : list wrow) (mean : Q) (row : nat) (u : Q) (e : sres).
+| WSample (table : list wrow) (mean : Q) (row : nat) (u : Q) (e : sres)
+(** many draws (row, u, expected) on one table *)
+| WSamples (table : list wrow) (mean : Q) (draws : list (nat * Q * sres)).
 
 Definition check_wcase (c : wcase) : bool :=
   match c with
@@ -92,6 +94,8 @@ Definition check_wcase (c : wcase) : bool :=
          | _ => false
          end
   | WSample t mean row u e => sres_eqb (sample t mean row u) e
+  | WSamples t mean draws =>
+      forallb (fun d => let '(row, u, e) := d in sres_eqb (sample t mean row u) e) draws
   end.
 
 (** [false] = the case was decided vacuously (near tie); counted by the harness *)
